@@ -52,7 +52,9 @@ impl Process for SplitterProcess {
         if let Some(JsonValue::Array(lst)) = self.split_by.get(&context) {
             for val in lst {
                 let context = context.with_inupt(val);
-                self.next.process(context)?;
+                if self.next.process(context)? == ProcessDesision::Break {
+                    return Ok(ProcessDesision::Break);
+                }
             }
         }
         Ok(ProcessDesision::Continue)
